@@ -91,11 +91,14 @@ structure DState where
   sps : Std.HashMap String SpObj := {}
   rls : Std.HashMap String RlObj := {}
   wms : Std.HashMap String WmObj := {}
+  /-- plain bitvectors beyond 2^32 bits, described as (length, fill bit, sorted flipped positions); evaluated in closed
+  form only (see Driver/Bv.lean `evalHuge`) -/
+  huges : Std.HashMap String (Nat × Bool × List Nat) := {}
   regimes : Std.HashMap String Nat := {}
   deriving Inhabited
 
 def DState.reset (st : DState) : DState :=
-  { st with raws := {}, ivs := {}, bvs := {}, sps := {}, rls := {}, wms := {} }
+  { st with raws := {}, ivs := {}, bvs := {}, sps := {}, rls := {}, wms := {}, huges := {} }
 
 def DState.note (st : DState) (r : String) : DState :=
   { st with regimes := st.regimes.insert r (st.regimes.getD r 0 + 1) }
